@@ -79,6 +79,13 @@ class Transform(Unit):
             spec = g.spec(nmax=5 if tier == "thorough" else 4, mmax=4 if tier == "thorough" else 3)
             if k % 9 == 0:       # only equality rows / no rows / only slack rows
                 spec = g.spec(m=0)
+            if spec.m > 0 and k % 8 == 3:
+                # a NARROW ranged row of large magnitude (l < u, relative width ~2^-22): it is a ranged row with a slack,
+                # not an equality row — `l == u` decides, not closeness
+                i = g.rng.randrange(spec.m)
+                big = g.rng.choice([-1.0, 1.0]) * g.rng.choice([1, 3, 5]) * 2.0 ** g.rng.randint(10, 13)
+                spec.cl[i], spec.cu[i] = big, big + 2.0 ** -10
+                spec.c0[i] = spec.c0[i] + big
             sc = gen_scaling(g, spec)
             xt = internal_point(g, spec, sc)
             yt = g.vec(spec.m, kmax=8, jmax=1)
